@@ -238,7 +238,7 @@ def big_window_digits(ctx, gname, proj, aff, f, head, w, sched, idxs, n=2):
             digs.append(z3.ZeroExt(64 - width_b, z3.Extract(lo + width_b - 1, lo, k)))
         # each recorded update i: happens iff digit_i > 0 and targets bucket digit_i
         if len(log) != n:
-            chk.ground(pre + 'one conditional bucket update per component', False, '%d updates recorded' % len(log))
+            chk.shape(pre + 'one conditional bucket update per component', False, '%d updates recorded' % len(log))
             continue
         bad = []
         for i, (idx, pcs) in enumerate(log):
@@ -319,9 +319,9 @@ def big_window_digits_anypos(ctx, gname, proj, aff, f, head, w, n=2):
             digs.append(z3.Extract(63, 0, sh & msk))
         # each recorded update i: happens iff digit_i > 0 and targets bucket digit_i
         if any(not isinstance(c, int) or not (0 <= c < n) for (_, _, c) in log) or set(c for (_, _, c) in log) != set(range(n)):
-            chk.ground(pre + 'every bucket update names its component', False, 'components %r' % [c for (_, _, c) in log])
+            chk.shape(pre + 'every bucket update names its component', False, 'components %r' % [c for (_, _, c) in log])
             continue
-        chk.ground(pre + 'bucket updates recorded per control-flow branch and component', True, '%d updates over %d components' % (len(log), n))
+        chk.shape(pre + 'bucket updates recorded per control-flow branch and component', True, '%d updates over %d components' % (len(log), n))
         top = z3.And(*[z3.Extract(63, 63, k[3]) == 0 for k in ks], z3.ULE(bsym, z3.BitVecVal(255, 64)))
         bad = []
         for i in range(n):
@@ -519,6 +519,77 @@ def precomp_variant(ctx):
             chk.add_executor(ex)
 
 
+def native_differential(ctx):
+    """supplementary oracle and replay target: the native multi-scalar multiplications (bucket method with every window 1..=20, default
+    entry point, table-driven variant) on point multisets with identities, duplicates and mutually inverse points, structured scalars
+    and mismatched list lengths, against sum [k_i]P_i from the reference curve arithmetic; the window heuristic for n around every
+    table boundary must stay within 1..=16."""
+    import random
+    from mirsym import load, ref
+    chk = ctx.chk
+    rnd = random.Random(ctx.seed * 13 + 5)
+    q, r = ref.Q, ref.R_ORDER
+    n = load.Native('release')
+    try:
+        gs = n.run(['g1_mul %x' % k for k in (1, 2, 3, 5, rnd.randrange(2, r))])
+        P = [tuple(int(t, 16) for t in o.split()) for o in gs]
+        neg = lambda pt: (pt[0], (-pt[1]) % q)
+        INF = None
+        def fmt(pt):
+            return 'inf -' if pt is None else '%x %x' % pt
+        big = (1 << 255) - 1
+        sets = [
+            ('empty', [], []),
+            ('one point', [P[0]], [rnd.randrange(1 << 255)]),
+            ('identity point', [INF, P[1]], [rnd.randrange(1 << 255), rnd.randrange(1 << 255)]),
+            ('identity only', [INF], [big]),
+            ('duplicate points', [P[2], P[2], P[2]], [big, 1 << 64, (1 << 128) + 1]),
+            ('mutually inverse points, equal scalars', [P[3], neg(P[3])], [0x1234567890abcdef0123, 0x1234567890abcdef0123]),
+            ('mutually inverse points', [P[4], neg(P[4]), P[0]], [rnd.randrange(1 << 255), rnd.randrange(1 << 255), (1 << 63)]),
+            ('zero scalars', [P[0], P[1]], [0, 0]),
+            ('single bits at word boundaries', [P[0], P[1], P[2], P[3]], [1 << 63, 1 << 64, 1 << 127, 1 << 192]),
+            ('all-ones', [P[1], P[4]], [big, big]),
+            ('more scalars than points', [P[0], P[1]], [3, 5, 7]),
+            ('more points than scalars', [P[0], P[1], P[2]], [big, 9]),
+            ('random', [P[i] for i in range(5)], [rnd.randrange(1 << 255) for _ in range(5)]),
+        ]
+        modes = ['w%d' % w for w in range(1, 21)] + ['default', 'p256']
+        if ctx.tier == 'quick':
+            modes = ['w1', 'w2', 'w3', 'w5', 'w8', 'w11', 'w13', 'w16', 'w20', 'default', 'p256']
+        cases = []
+        for nm, pts, ks in sets:
+            m_ = min(len(pts), len(ks))
+            want = None
+            for pt, k in list(zip(pts, ks))[:m_]:
+                if pt is not None:
+                    want = ref.E1.padd(want, ref.E1.smul(k, pt))
+            wtxt = 'inf' if want is None else '%096x %096x' % want
+            for mode in modes:
+                if mode == 'p256' and len(pts) != len(ks):
+                    continue        # the table-driven variant is claimed for matching tables only
+                cases.append((nm, mode, 'g1_msm %s %d %d %s %s' % (mode, len(pts), len(ks), ' '.join(fmt(pt) for pt in pts), ' '.join('%x' % k for k in ks)), wtxt))
+        outs = n.run([c[2] for c in cases])
+        ns = sorted(set([0, 1, 2, 3, 4, 5] + [b + d for b in (8, 16, 32, 64, 100, 128, 256, 512, 1000, 1024, 4096, 10000, 65536, 100000, 1 << 20, 1 << 24, 1 << 32, 1 << 40) for d in (-1, 0, 1)]))
+        wins = n.run(['g1_window %d' % v for v in ns])
+    finally:
+        n.close()
+    seen = set()
+    nbad = 0
+    for (nm, mode, cmd, wtxt), o in zip(cases, outs):
+        if o.strip() != wtxt:
+            nbad += 1
+            key = 'msm-native:%s:%s' % ('pippenger' if mode.startswith('w') else mode, nm)
+            if key not in seen:
+                seen.add(key)
+                ctx.violation(key, 'native multi-scalar multiplication (%s) on "%s" differs from sum [k_i]P_i: got %s, want %s' % (mode, nm, o.strip()[:40], wtxt[:40]),
+                              {'cmd': cmd, 'mode': mode, 'input_class': nm, 'got': o.strip(), 'expected': wtxt, 'profile': 'release'})
+    badw = [(v, o) for v, o in zip(ns, wins) if not all(1 <= int(t) <= 16 for t in o.split()[:1])]
+    for v, o in badw[:2]:
+        ctx.violation('msm-native:window:%d' % v, 'find_pippinger_window(%d) = %s is outside 1..=16' % (v, o), {'cmd': 'g1_window %d' % v, 'got': o})
+    chk.extra['native_differential'] = {'msm_cases': len(cases), 'disagreements': nbad, 'window_heuristic_points': len(ns), 'window_out_of_range': len(badw),
+                                        'role': 'supplementary oracle / replay target; the deciding method is the solver run'}
+
+
 def run(ctx):
     chk = ctx.chk
     ctx.explanation = ('Pippenger by one inductive step per window position from an arbitrary invariant state (cut point at the outer loop '
@@ -526,12 +597,17 @@ def run(ctx):
                        'digit extraction / index safety for windows 1..=20 from recorded bucket updates; entry points and the table '
                        'variant executed whole; all decided by z3 (QF_BV)')
     only = getattr(ctx, 'only', None)
-    if not only or 'entry' in only:
-        entry_points(ctx)
-    if not only or 'precomp' in only:
-        precomp_variant(ctx)
-    if not only or 'pip' in only or 'anypos' in only:
-        pippenger(ctx)
+    try:
+        if not only or 'entry' in only:
+            entry_points(ctx)
+        if not only or 'precomp' in only:
+            precomp_variant(ctx)
+        if not only or 'pip' in only or 'anypos' in only:
+            pippenger(ctx)
+    except Inconclusive as e_:
+        ctx.inconclusive('encoder: %s' % e_)
+    if not only or 'native' in only:
+        native_differential(ctx)
     chk.bounds.update({'bucket method (full step incl. reduction)': 'quick: windows 1..6 with n = 2 or 3 points at the first/last/word-straddling positions; '
                        'thorough: windows 1..8 (n<=3 for w<=6, n=2 for w=7,8) at every position',
                        'digit extraction + index safety': 'every window 1..=20 with a SYMBOLIC bit position 0..=255 (both tiers); thorough repeats it at every concrete schedule position',
